@@ -30,7 +30,9 @@ META = dict(
     assumptions=["independence assumption for the closures: three or more groups interfere only if some pair does (probed by "
                  "the bounded-depth run over the whole alphabet)",
                  "formula('aa:..', table=T) and xray_sld (no table keyword) are documented not to support private tables: excluded",
-                 "mutation of the shared class-level placeholder through an atom of T that has no data of its own: excluded"],
+                 "data served from the class (a default assigned to Element / Isotope by an init function) counts in the alias "
+                 "analysis for every table that lists the attribute among its initialised properties and every atom that has no "
+                 "value of its own; for a table whose group was never initialised the placeholder is not 'data of its atoms'"],
     level_text="closure per sub-alphabet of the private/public table interaction state space on the real interpreter, "
                "with value digests and a heap-alias analysis in every state",
     level_note="canonical digests come from a pristine fork; key abstraction validated on second representatives",
